@@ -43,8 +43,9 @@ CHECKS["C16"] = dict(
               "counterexamples replayed on real pandas",
     text="Bounded model checking over operation histories: for the listed initial tables every single mutation (thorough: "
          "two) with symbolic written values and every order of the query groups before/after it is executed on the real "
-         "DataModel code and every query is compared with a scan of a list-of-dicts model; GIRBlockViewer is executed on "
-         "every well-nested row sequence up to the bound. CONFIRMED means CrossHair exhausted the slice. Histories are "
+         "DataModel code and every query is compared with a scan of a list-of-dicts model; every pair of column renames on a "
+         "3-column table (a column taking over a name another just gave up) with equality queries before/between/after; "
+         "GIRBlockViewer is executed on every well-nested row sequence up to the bound (incl. block-marker queries through nested views). CONFIRMED means CrossHair exhausted the slice. Histories are "
          "the property's quantifier; the bound is stated in evidence.",
     note="Trusted: CrossHair/z3; the pandas stand-in (vlib/stubs/fakepandas.py, validated against real pandas on a corpus "
          "every run; every counterexample must reproduce on real pandas); the scan model.",
@@ -53,10 +54,10 @@ CHECKS["C16"] = dict(
 CHECKS["C15"] = dict(
     level="model_checking", engine="X",
     technique="CrossHair symbolic execution (z3) of the real LRUCache and GeneralLoader state machine (UnitLevelLoader, "
-              "ScopeIDToAvailableScopeIDsLoader over the real DataModel and a pandas/feather stand-in) over symbolic "
+              "ScopeIDToAvailableScopeIDsLoader, ClassIDToMembersLoader over the real DataModel and a pandas/feather stand-in) over symbolic "
               "save/get/export/restore histories with symbolic payloads; counterexamples replayed with real pandas and files",
     text="Bounded model checking over histories: every history of save/get/export/checkpoint (export, export_indexing, "
-         "restore into a fresh loader) up to the stated length, for the listed cache capacities and MAX_ROWS values that "
+         "restore into a fresh loader) and, in dedicated slices, remove_unit_id, up to the stated length, for the listed cache capacities and MAX_ROWS values that "
          "force multi-bundle output, with symbolic item payloads, must return the most recently saved content; LRUCache "
          "is compared with an ordered model including eviction order. One concrete fault scenario (unwritable bundle) is "
          "replayed on the real code. CONFIRMED = slice exhausted.",
@@ -86,12 +87,12 @@ CHECKS["C03"] = dict(
 CHECKS["C18"] = dict(
     level="model_checking", engine="X",
     technique="CrossHair symbolic execution (z3) of the real Lian.set_workspace_dir + WorkspaceBuilder.run over an in-memory "
-              "filesystem, configuration (workspace option, inputs, tree flags, --force) as solver variables; counterexamples "
+              "filesystem, configuration (workspace option, inputs, tree flags, --force, --incremental) as solver variables; counterexamples "
               "replayed on the real filesystem in a scratch directory",
     text="Bounded model checking over configurations: for every workspace option of 1-2 components (relative/absolute, "
-         "default name, custom name containing the default name, '..', '.'), 1-2 inputs (directory, file, nested, the "
-         "workspace itself, parents), presence of a nested directory / symlink / stale workspace, with and without "
-         "--force, the real preparation code runs against a logging filesystem model; every create/write/delete must lie "
+         "default name, custom name containing the default name, '..', '.', a link into an input), 1-2 inputs (directory, file, "
+         "nested, the workspace itself, parents), presence of a nested directory / symlink / stale workspace (old files and "
+         "out-pointing links, or its own src/bak being out-pointing links), with and without --force and --incremental, the real preparation code runs against a logging filesystem model; every create/write/delete must lie "
          "under realpath(workspace), deletes need --force, nothing outside changes, and the number of effects is bounded by "
          "the inputs. CONFIRMED = all configurations of the slice exhausted.",
     note="Trusted: CrossHair/z3 (configurations decode to concrete paths: enumerative variables), the filesystem model "
@@ -219,9 +220,11 @@ CHECKS["C07"] = dict(
     text="For every program of the call family and ALL entry arguments (so every call site behind any branch is exercised), each "
          "(caller, call statement, callee) the interpreter performs is a call site of some stored call path, and non-recursive "
          "callees have analysis results under that call-site context. CONFIRMED = all paths of all programs in the slice "
-         "exhausted. Single-file programs; the family is the bound.",
+         "exhausted. The family (direct, stored, returned and callback calls, constructors, methods, two-level inheritance, "
+         "recursion, several contexts of one site, re-bound names; multi-file: from-imports, aliases, re-exports, module objects) is "
+         "the bound.",
     note="Trusted: the reference interpreter's dispatch (validated against CPython by C01 on the same programs), CrossHair/z3, "
-         "Python's deterministic hash of int tuples for context ids. One open known finding (method chain on a returned object).",
+         "Python's deterministic hash of int tuples for context ids. Six open known findings, each with its witness program.",
     design="4/C07")
 
 CHECKS["C08"] = dict(
